@@ -23,7 +23,7 @@ func init() {
 		ID:      "C16",
 		Level:   "exploration",
 		Workers: 16,
-		Rule: "request mutation over the real service: valid requests captured from correct clients in all states (due-to-create, due-to-subscribe, subscribed with and without pending operations) are mutated in one to three fields - unknown / foreign / empty / swapped DUID, unknown or empty key, wrong type, every combination of the seven option bits (read-only with and without operations, snapshot, delete, unsubscribe, error), checkpoints stale / future / huge / zero, operation lists with gaps, repeats, reordering, foreign client id, other era, emptied, 500 operations; unregistered / foreign-collection / administrative / empty client id, unknown / other / empty collection, no packs, duplicated packs - plus correct requests with a panic injected inside their handler's goroutine between lock acquisition and commit (hook pp.before-commit: the recovery path must answer, keep the process alive and release the key), plus ClientMessage, PatchMessage (invalid JSON, non-object JSON, key of another type, unknown collection) and CollectionMessage variants. Monitors: every call is answered (watchdog classification: a handler that ended without replying is a hang), a server panic is a violation, refused (RPC error or error-bit pack) => store diff empty (volatile timestamps ignored); after every hostile request a canary client syncs the same key and another key and must be answered; after an ACCEPTED hostile request the stored log must still satisfy the structural invariants of C06 (gapless up to the recorded end, nobody acknowledged beyond what is stored). Client half: every error pack the server produced in the run and the five defined push-pull error codes are applied to a subscribed client: its error handler must be called, nothing may panic, and it must complete a normal sync of another datatype afterwards; every third case also runs the client half through the SDK's own sync path (Client.Sync() over real grpc): a lost response, a request refused at the RPC level and an error pack for one of two datatypes, in random order - after each the next Sync() must return (watchdog classification: waiting for the client's sync semaphore while no sync is under way is a hang) and succeed, the error pack must reach an error handler, and every issued operation ends up stored exactly once; " +
+		Rule: "request mutation over the real service: valid requests captured from correct clients in all states (due-to-create, due-to-subscribe, subscribed with and without pending operations) are mutated in one to three fields - unknown / foreign / empty / swapped DUID, unknown or empty key, wrong type, every combination of the seven option bits (read-only with and without operations, snapshot, delete, unsubscribe, error), checkpoints stale / future / huge / zero, operation lists with gaps, repeats, reordering, foreign client id, other era, emptied, 500 operations; unregistered / foreign-collection / administrative / empty client id, unknown / other / empty collection, no packs, duplicated packs - plus correct requests with a panic injected inside their handler's goroutine between lock acquisition and commit (hook pp.before-commit: the recovery path must answer, keep the process alive and release the key; also for ONE of the two handlers of a two-pack message, which must still be answered with both packs), plus ClientMessage, PatchMessage (invalid JSON, non-object JSON, key of another type, unknown collection) and CollectionMessage variants. Monitors: every call is answered (watchdog classification: a handler that ended without replying is a hang), a server panic is a violation, refused (RPC error or error-bit pack) => store diff empty (volatile timestamps ignored); after every hostile request a canary client syncs the same key and another key and must be answered; after an ACCEPTED hostile request the stored log must still satisfy the structural invariants of C06 (gapless up to the recorded end, nobody acknowledged beyond what is stored). Client half: every error pack the server produced in the run and the five defined push-pull error codes are applied to a subscribed client: its error handler must be called, nothing may panic, and it must complete a normal sync of another datatype afterwards; every third case also runs the client half through the SDK's own sync path (Client.Sync() over real grpc): a lost response, a request refused at the RPC level and an error pack for one of two datatypes, in random order - after each the next Sync() must return (watchdog classification: waiting for the client's sync semaphore while no sync is under way is a hang) and succeed, the error pack must reach an error handler, and every issued operation ends up stored exactly once; " +
 			"non-trivial = the request differs from any request a correct client could send (every mutated request); distinct = hash of the mutation script",
 		Assumptions: []string{
 			"only 'answered / not answered / crashed' and 'refused => unchanged' are verdicts; whatever a canary notices after an ACCEPTED hostile request (error pack, client-side panic) is recorded as a diagnostic",
@@ -414,6 +414,11 @@ func runC16(c *core.Case) *core.Result {
 				x.canary.Apply(cex.Resp)
 				w.idle()
 			}
+			if r.Intn(2) == 0 {
+				if res := x.multiPackHandlerFault(); res != nil {
+					return res
+				}
+			}
 		case kind < 7:
 			cl := x.att[r.Intn(len(x.att))]
 			for _, d := range cl.DTs {
@@ -733,5 +738,93 @@ func c16SDKHalf(c *core.Case, w *svcWorld) *core.Result {
 		}
 	}
 	c.Count("sdk_client_halves", 1)
+	return nil
+}
+
+// multiPackHandlerFault: ONE message of a correct client carries two packs (keys k0 and k9);
+// the handler of k0 panics between lock acquisition and commit. The message must still be
+// answered with both packs (the handlers' exit from their critical sections is observed at
+// the hook pp.cs-exit: once both have left, only the reply is outstanding - a call that has
+// not returned by then will never return), and both keys must be served again afterwards.
+func (x *c16world) multiPackHandlerFault() *core.Result {
+	w, c := x.w, x.w.c
+	w.localOp(x.cz0)
+	w.localOp(x.cz9)
+	req := x.canary.BuildRequest(x.cz0, x.cz9)
+	var armed int32 = 1
+	var exits int32
+	cuid := x.canary.Model.CUID
+	w.b.OnHook(func(point string, args ...interface{}) {
+		if len(args) < 5 || args[4] != cuid {
+			return
+		}
+		switch point {
+		case "pp.before-commit":
+			if args[3] == "k0" && atomic.CompareAndSwapInt32(&armed, 1, 0) {
+				panic("injected fault inside one handler of a two-pack message")
+			}
+		case "pp.cs-exit":
+			atomic.AddInt32(&exits, 1)
+		}
+	})
+	c.Step("correct two-pack push-pull from the canary (k0, k9) with a panic injected inside the handler of k0")
+	ex := x.canary.Send(req)
+	fired := atomic.LoadInt32(&armed) == 0
+	atomic.StoreInt32(&armed, 0)
+	if ex.Out.Panic != "" {
+		return c.Violation("server-panic:multi-pack-handler-fault", "ProcessPushPull panicked: %s", ex.Out.Panic)
+	}
+	if ex.Out.TimedOut {
+		if ex.Out.Hang || atomic.LoadInt32(&exits) >= 2 {
+			return c.Violation("no-answer:multi-pack-handler-fault", "a two-pack message one of whose handlers panicked was never answered although both handlers have left their critical sections (pp.cs-exit seen %d times)\n%s", atomic.LoadInt32(&exits), clipDump(ex.Out.Dump))
+		}
+		return c.Inconclusive("watchdog on a two-pack message with a handler fault")
+	}
+	if !w.idle() {
+		return c.Inconclusive("idle")
+	}
+	if !fired {
+		return nil
+	}
+	c.Count("multi_pack_handler_faults_injected", 1)
+	if ex.Out.Err == nil && ex.Resp != nil {
+		if n := len(ex.Resp.PushPullPacks); n != 2 {
+			return c.Violation("packs-lost:multi-pack-handler-fault", "a two-pack message one of whose handlers panicked was answered with %d packs", n)
+		}
+		if p := ex.PackOf("k9"); p != nil && bed.IsErrorPack(p) {
+			c.Count("diagnostic_sibling_pack_of_faulted_handler_refused", 1)
+		}
+		x.canary.Apply(ex.Resp)
+		w.idle()
+	}
+	// both keys are served again
+	w.localOp(x.cz0)
+	w.localOp(x.cz9)
+	for try := 0; try < 2; try++ {
+		cex := x.canary.Send(x.canary.BuildRequest(x.cz0, x.cz9))
+		if cex.Out.TimedOut && cex.Out.Hang {
+			return c.Violation("no-answer:after-multi-pack-handler-fault", "after a handler fault in a two-pack message the next request on those keys is never answered\n%s", clipDump(cex.Out.Dump))
+		}
+		if cex.Out.TimedOut {
+			return c.Inconclusive("canary watchdog after a multi-pack handler fault")
+		}
+		if cex.Out.Err != nil {
+			return c.Violation("key-blocked-after-handler-fault", "after a handler fault in a two-pack message the next correct request is refused with an RPC error: %v", cex.Out.Err)
+		}
+		refused := false
+		for _, p := range cex.Resp.PushPullPacks {
+			if bed.IsErrorPack(p) {
+				refused = true
+			}
+		}
+		x.canary.Apply(cex.Resp)
+		w.idle()
+		if !refused {
+			return nil
+		}
+		if try == 1 {
+			return c.Violation("key-blocked-after-handler-fault", "after a handler fault in a two-pack message correct requests on keys k0 / k9 keep being refused: a key was not released")
+		}
+	}
 	return nil
 }
